@@ -855,5 +855,9 @@ for _p in ("C16", "C13"):
     PROPS[_p]["rules"] = PROPS[_p]["rules"] + [rules_handles.rule_start_access_keeps_record]
     PROPS[_p]["explanation"] += " (STACCOWN) no start-access routine of a special-element kind releases the access record it was handed."
 
+for _p in ("C16", "C11"):
+    PROPS[_p]["rules"] = PROPS[_p]["rules"] + [rules_mem.rule_handed_over_not_freed]
+    PROPS[_p]["explanation"] += " (OWNXFER) a working pointer that a loop hands to a tree or atom group and the failure cleanup frees is cleared after the hand-over."
+
 NOT_APPLICABLE = {}
 
